@@ -275,6 +275,24 @@ pub fn scenario(prop: &str, tier: &str, sseed: u64, index: u64) -> (&'static str
         "C15" if structured < 75 => return ("forced-cycle", families::forced_cycle(&mut g, index)),
         _ => {}
     }
-    let (fam, k) = knobs_for(prop, &mut g);
+    let (fam, mut k) = knobs_for(prop, &mut g);
+    if tier == "thorough" && g.chance(300) {
+        // deeper bounds in the thorough tier: more actors, clients and operations per client,
+        // larger capacities (section 2.4 bounds: <= 6 actors, <= 8 clients, <= 60 operations)
+        k.actors = (k.actors.0, (k.actors.1 + 2).min(5));
+        k.clients = (k.clients.0, 8);
+        k.ops = (k.ops.0, 12);
+        if !k.caps.contains(&Some(130)) && g.chance(300) {
+            k.caps.push(Some(130));
+        }
+        let name = match fam {
+            "generic" => "generic-large",
+            "generic-faulty" => "generic-faulty-large",
+            "generic-kill" => "generic-kill-large",
+            "generic-handles" => "generic-handles-large",
+            _ => "generic-large",
+        };
+        return (name, gen::generic(&mut g, &k));
+    }
     (fam, gen::generic(&mut g, &k))
 }
